@@ -450,6 +450,23 @@ def _worker(args):
     return out
 
 
+_PRELOADED = False
+
+
+def _preload():
+    """import the library (and wrap the rewrite hooks) in the parent, so forked workers inherit loaded modules"""
+    global _PRELOADED
+    if _PRELOADED:
+        return
+    import dask  # noqa
+    import dask_array  # noqa
+
+    from . import record
+
+    record.install()
+    _PRELOADED = True
+
+
 def run_corpus(behaviours, observers=(), max_variants=8, seed=0, procs=16, opts=None):
     """Replay all behaviours in parallel worker processes; returns merged Outcome."""
     import multiprocessing as mp
@@ -458,14 +475,23 @@ def run_corpus(behaviours, observers=(), max_variants=8, seed=0, procs=16, opts=
 
     if not behaviours:
         return Outcome()
+    _preload()
     parts = chunk_list(behaviours, procs * 3 if len(behaviours) > procs * 6 else 1)
     ctx = mp.get_context("fork")
     args = [(p, list(observers), max_variants, seed + i, opts) for i, p in enumerate(parts)]
     if len(parts) == 1:
         outs = [_worker(args[0])]
     else:
-        with ctx.Pool(min(procs, len(parts))) as pool:
-            outs = pool.map(_worker, args)
+        import gc
+
+        # the parent holds large corpora: keep the children's garbage collector from touching (and thereby copying) them
+        gc.collect()
+        gc.freeze()
+        try:
+            with ctx.Pool(min(procs, len(parts))) as pool:
+                outs = pool.map(_worker, args)
+        finally:
+            gc.unfreeze()
     merged = Outcome()
     for o in outs:
         merged.violations += o.violations
@@ -483,27 +509,67 @@ ALL_ACTS = ["Index", "Elemwise", "Unary", "AsType", "Transpose", "Reshape", "Exp
             "PadRepeat", "TopK"]
 
 
-def program_cfg(acts, maxlen, preset, sim, smax=3, idxpad=2, emit_all=False, lean=False, excl=()):
+def program_cfg(acts, maxlen, preset, sim, smax=3, idxpad=2, emit_all=False, lean=False, excl=(), acts2=()):
     acts_s = ", ".join(f'"{a}"' for a in acts)
     return (
         "INIT Init\nNEXT Next\nINVARIANT Emit\nINVARIANT WellFormed\nCHECK_DEADLOCK FALSE\nCONSTANTS\n"
-        f"  Acts = {{{acts_s}}}\n  MaxLen = {maxlen}\n  SrcPreset = \"{preset}\"\n  Sim = {'TRUE' if sim else 'FALSE'}\n"
+        f"  Acts = {{{acts_s}}}\n  Acts2 = {{{', '.join(chr(34) + a + chr(34) for a in acts2)}}}\n  MaxLen = {maxlen}\n  SrcPreset = \"{preset}\"\n  Sim = {'TRUE' if sim else 'FALSE'}\n"
         f"  SMax = {smax}\n  IdxPad = {idxpad}\n  EmitAll = {'TRUE' if emit_all else 'FALSE'}\n"
         f"  Lean = {'TRUE' if lean else 'FALSE'}\n"
         "  ExclPairs = {" + ", ".join(f'"{a}>{b}"' for a, b in excl) + "}\n"
     )
 
 
+def _spec_hash():
+    import hashlib
+
+    h = hashlib.sha1()
+    for m in ("ArrayProgram.tla", "NdArray.tla", "ChunkAlgebra.tla"):
+        h.update(open(os.path.join(tlc.SPEC, m), "rb").read())
+    return h
+
+
+class _CachedResult:
+    """TLC statistics of a cached generation run (the run happened in setup or in an earlier check)."""
+
+    def __init__(self, d):
+        self.__dict__.update(d)
+
+
 def generate_programs(acts, maxlen, preset, *, sim, num=None, seed=0, smax=3, idxpad=2, emit_all=False, rundir=None,
-                      timeout=900, depth=None, lean=False, workers=1, excl=()):
-    cfg = program_cfg(acts, maxlen, preset, sim, smax, idxpad, emit_all, lean, excl)
+                      timeout=900, depth=None, lean=False, workers=1, excl=(), cache=True, acts2=()):
+    """Behaviours of ArrayProgram.tla for one configuration.  The output depends only on the specification
+    and the configuration, so it is cached under /verif/.cache keyed by their content hash (nothing that touches
+    /repo is ever cached)."""
+    import pickle
+
+    cfg = program_cfg(acts, maxlen, preset, sim, smax, idxpad, emit_all, lean, excl, acts2)
+    h = _spec_hash()
+    h.update(cfg.encode())
+    h.update(repr((sim, num, seed, depth)).encode())
+    cpath = os.path.join(tlc.CACHE, f"programs-{h.hexdigest()[:20]}.pkl")
+    if cache and os.path.exists(cpath):
+        try:
+            with open(cpath, "rb") as f:
+                behs, stats = pickle.load(f)
+            return behs, _CachedResult(stats)
+        except Exception:
+            pass
     if sim:
         res = tlc.run_tlc("ArrayProgram", cfg, simulate=f"num={num}", depth=depth or (maxlen + 3), seed=seed, rundir=rundir,
                           timeout=timeout, heap="3g")
     else:
         res = tlc.run_tlc("ArrayProgram", cfg, rundir=rundir, timeout=timeout, heap="6g", workers=workers)
     tlc.require_clean(res, "ArrayProgram generation")
-    return parse_behaviours(res), res
+    behs = parse_behaviours(res)
+    if cache:
+        stats = dict(distinct=res.distinct, generated=res.generated, coverage=res.coverage, wall=res.wall, depth=res.depth,
+                     cached=True)
+        tmp = cpath + f".{os.getpid()}.tmp"
+        with open(tmp, "wb") as f:
+            pickle.dump((behs, stats), f, protocol=4)
+        os.replace(tmp, cpath)
+    return behs, res
 
 
 def binding_selftest(behaviours, seed=0):
